@@ -22,9 +22,12 @@ Act ==
       [] Ev.op = "recreate"  -> UNCHANGED cvars          \* client object discarded and re-created from disk (C09)
       [] Ev.op = "restart"   -> UNCHANGED cvars          \* server restarted (C09)
       [] OTHER -> FALSE
-(* what is persisted after the operation *)
+(* what is persisted after the operation.  live: the client object that ran the operation is still connected (C09 keeps it  *)
+(* between two steps unless the history re-creates it); commands.py persists the upload flags at the latest when it closes   *)
+(* the service, so while the object lives they are not yet bound.                                                            *)
 Observed == /\ exists' = Ev.o.exists
-            /\ cc' = Ev.o.cc /\ cu' = Ev.o.cu /\ kc' = Ev.o.kc /\ de' = Ev.o.de /\ du' = Ev.o.du
+            /\ cc' = Ev.o.cc /\ kc' = Ev.o.kc /\ de' = Ev.o.de
+            /\ (Ev.o.live \/ (cu' = Ev.o.cu /\ du' = Ev.o.du))
             /\ keyVer' = Ev.o.keyVer
             /\ st' = Ev.o.sst
             /\ Ev.o.ndirs = (IF exists' THEN 1 ELSE 0)
